@@ -59,6 +59,26 @@ def decl_tokens(groups):
     return toks
 
 
+def gen_value_token(ch):
+    """A number token of 1-15 significant digits and magnitude 1e-12 .. 1e18, written as a plain decimal or in the
+    scientific forms float() reads (1.5e-07, 2E+3, 4e10)."""
+    nd = ch.int(1, 15)
+    digits = str(ch.int(1, 9)) + "".join(ch.choice("0123456789") for _ in range(nd - 1))
+    exp = ch.int(-12, 18)                      # decimal exponent of the leading digit
+    sign = "-" if ch.flag(0.3) else ""
+    style = ch.weighted([(3, "plain"), (2, "sci")])
+    if style == "plain" and -7 <= exp <= 15:
+        if exp >= nd - 1:
+            return sign + digits + "0" * (exp - nd + 1)
+        if exp >= 0:
+            return sign + digits[:exp + 1] + "." + digits[exp + 1:]
+        return sign + "0." + "0" * (-exp - 1) + digits
+    mant = digits[0] + ("." + digits[1:] if nd > 1 else "")
+    e = ch.choice(["e", "E"])
+    es = ("-" if exp < 0 else ch.choice(["", "+"])) + ch.choice(["", "0"]) + str(abs(exp))
+    return sign + mant + e + es
+
+
 def gen_problem(ch, dom, objects=None, repeated=True, max_items=6, ternary_repeat=False):
     objects = objects if objects is not None else gen_objects(ch, dom)
     world = pddl.World(dom, objects)
@@ -72,7 +92,7 @@ def gen_problem(ch, dom, objects=None, repeated=True, max_items=6, ternary_repea
     if not ternary_repeat:   # >=3-ary fluents with a repeated object: known finding trigger, excluded by construction
         gfl = [f for f in gfl if not (len(f) > 3 and len(set(f[1:])) < len(f) - 1)]
     for f in ch.sample(gfl, min(len(gfl), ch.int(0, max_items))):
-        fluents.append([list(f), ch.choice(VALUE_TOKENS)])
+        fluents.append([list(f), gen_value_token(ch) if ch.flag(0.3) else ch.choice(VALUE_TOKENS)])
     goal_lits = [list(a) for a in ch.sample(atoms, min(len(atoms), ch.int(0, 3)))]
     goal_conds = []
     if gfl and ch.flag(0.5):
